@@ -369,36 +369,48 @@ func run(c *lib.Ctx) error {
 	if os.Getenv("C42_PHASE") == "V" { // development aid: only the V phase
 		return validate(c, h, dir)
 	}
-	// ---- M: design properties, with free body operations in every order
+	// ---- all TLC runs first (up to 4 processes side by side, 8 cores), then the real code sequentially
 	mos := []genRun{{"MCPorts(body)", 1, 1, 3, c.Pick(1, 3), false}, {"MCPorts(body,piped)", 1, 0, c.Pick(2, 3), 1, true}}
-	for _, mo := range mos {
-		r, err := c.TLC(mo.Name, lib.TLCRun{Dir: dir, Module: "MCPorts", Workers: 4, Timeout: 40 * time.Minute, HeapGB: 6,
-			Files: map[string][]byte{"MCPorts.cfg": mcCfg(mo.MaxR, 2, mo.Neg, mo.Hi, mo.NPresent, mo.Piped, false, append(designInvs, "EarlyAgreesProbed")...)}})
-		if err != nil {
-			return err
-		}
-		if r.ErrKind != "" {
-			return lib.Infra("the port model violates its own property %s %s:\n%s", r.ErrKind, r.ErrName, r.ErrTrace)
-		}
-		c.Logf("%s (1 redirection, 2 free body operations): %d states", mo.Name, r.Distinct)
-	}
-
-	// ---- M + G: every redirection sequence, emitted with prescribed outcomes
 	gens := []genRun{{"MCPorts(G,depth2)", 2, 2, 4, c.Pick(1, 3), false}, {"MCPorts(G,depth2,piped)", 2, c.Pick(0, 1), c.Pick(2, 3), 1, true}}
 	if c.Thorough() {
 		gens = append(gens, genRun{"MCPorts(G,depth3)", 3, 0, 2, 1, false})
 	}
 	c.Set("bounds", map[string]any{"G": gens, "M_body": mos})
+	type tlcOut struct {
+		r   *lib.TLCResult
+		err error
+	}
+	outs := make([]tlcOut, len(mos)+len(gens))
+	lib.Parallel(len(outs), 4, func(i int) {
+		var g genRun
+		var cfg []byte
+		if i < len(mos) {
+			// M: design properties, with free body operations in every order
+			g = mos[i]
+			cfg = mcCfg(g.MaxR, 2, g.Neg, g.Hi, g.NPresent, g.Piped, false, append(designInvs, "EarlyAgreesProbed")...)
+		} else {
+			// M + G: every redirection sequence, emitted with prescribed outcomes
+			g = gens[i-len(mos)]
+			cfg = mcCfg(g.MaxR, 0, g.Neg, g.Hi, g.NPresent, g.Piped, true, append(designInvs, "Emit")...)
+		}
+		r, err := c.TLC(g.Name, lib.TLCRun{Dir: dir, Module: "MCPorts", Workers: 2, Timeout: 40 * time.Minute, HeapGB: 6,
+			Files: map[string][]byte{"MCPorts.cfg": cfg}})
+		outs[i] = tlcOut{r, err}
+	})
+	for i, o := range outs {
+		if o.err != nil {
+			return o.err
+		}
+		if o.r.ErrKind != "" {
+			return lib.Infra("the port model violates its own property %s %s:\n%s", o.r.ErrKind, o.r.ErrName, o.r.ErrTrace)
+		}
+		if i < len(mos) {
+			c.Logf("%s (1 redirection, 2 free body operations): %d states", mos[i].Name, o.r.Distinct)
+		}
+	}
 	total := 0
 	for gi, g := range gens {
-		r, err := c.TLC(g.Name, lib.TLCRun{Dir: dir, Module: "MCPorts", Workers: 4, Timeout: 40 * time.Minute, HeapGB: 8,
-			Files: map[string][]byte{"MCPorts.cfg": mcCfg(g.MaxR, 0, g.Neg, g.Hi, g.NPresent, g.Piped, true, append(designInvs, "Emit")...)}})
-		if err != nil {
-			return err
-		}
-		if r.ErrKind != "" {
-			return lib.Infra("the port model violates its own property %s %s:\n%s", r.ErrKind, r.ErrName, r.ErrTrace)
-		}
+		r := outs[len(mos)+gi].r
 		var probes [][]Op
 		seen := map[string]bool{}
 		var behs []Beh
